@@ -24,6 +24,7 @@ import (
 	"verif/memwire"
 	"verif/mon"
 	"verif/o4"
+	ntorref "verif/ref/ntor"
 	ref "verif/ref/obfs4"
 )
 
@@ -271,6 +272,14 @@ func impostorCase(c *mon.Case, r *mon.Run, victim o4.Bridge, mode string, record
 			if err == nil {
 				rc.WriteData(mon.Stream{Key: seed}.Bytes(0, 100), 0, 0)
 			}
+		case "degenerate-identity-key":
+			// the bridge line carries a public key of small order: no private
+			// key exists and EXP(B,x) is the all-zero string for every client
+			// secret, so anybody can compute AUTH.  The client must refuse.
+			rc, _, _, err := o4.RefAcceptForged(sw, imp, rng, -1, [32]byte{})
+			if err == nil {
+				rc.WriteData(mon.Stream{Key: seed}.Bytes(0, 100), 0, 0)
+			}
 		case "replayed-response":
 			// read the hello, answer with a response recorded from the genuine server
 			buf := make([]byte, 8192)
@@ -317,7 +326,7 @@ func impostorCase(c *mon.Case, r *mon.Run, victim o4.Bridge, mode string, record
 func TestCheck(t *testing.T) {
 	r := mon.Start(t, "C02")
 	defer r.Finish()
-	r.Note("rule", "per bridge: genuine control (must complete, data both ways); man-in-the-middle on a genuine real server's first write: EVERY single bit of representative, AUTH, mark and MAC (768 bits) plus PRNG-sampled padding bits and seed-frame bits, truncation/insertion/deletion inside every field, field offsets found from public data only; impostor servers (reference implementation with the victim's public B and NODEID but another private key; replay of a recorded genuine response); clients configured with NODEID or B differing in one bit or random; all under response chunkings {all,1,31,33,63,65,PRNG}; 32 clients handshaking concurrently against one factory under the race detector; ephemeral representatives of all hellos/responses must be pairwise distinct. Non-trivial = a case whose modification was actually applied (or an impostor/misconfiguration/genuine case that ran); distinct = (bridge, class, position, chunking).")
+	r.Note("rule", "per bridge: genuine control (must complete, data both ways); man-in-the-middle on a genuine real server's first write: EVERY single bit of representative, AUTH, mark and MAC (768 bits) plus PRNG-sampled padding bits and seed-frame bits, truncation/insertion/deletion inside every field, field offsets found from public data only; impostor servers (reference implementation with the victim's public B and NODEID but another private key; replay of a recorded genuine response; bridge lines whose public key is any of the 14 encodings of a small-order point, served by a peer that computes AUTH with EXP(B,x)=0); clients configured with NODEID or B differing in one bit or random; all under response chunkings {all,1,31,33,63,65,PRNG}; 32 clients handshaking concurrently against one factory under the race detector; ephemeral representatives of all hellos/responses must be pairwise distinct. Non-trivial = a case whose modification was actually applied (or an impostor/misconfiguration/genuine case that ran); distinct = (bridge, class, position, chunking).")
 	dir := o4.StateDir("c02")
 	nBridges := r.Pick(4, 24)
 	for bi := 0; bi < nBridges; bi++ {
@@ -404,6 +413,22 @@ func TestCheck(t *testing.T) {
 					r.Count("impostor_"+mode, 1)
 					expectFail(c, r, "impostor/"+mode, out, map[string]any{"bridge": bi, "mode": mode, "chunking": chunkings[i%len(chunkings)], "dial_err": fmt.Sprint(out.dialErr)})
 				}
+			}
+		})
+		r.Bubble(fmt.Sprintf("impostor-degenerate/b%02d", bi), func(c *mon.Case) {
+			b, sf := bridge(c, r, dir, bi)
+			if sf == nil {
+				return
+			}
+			// bridge lines whose public key is one of the encodings of a
+			// small-order point; the peer is anybody who has read that line
+			for i, e := range ntorref.LowOrderEncodings() {
+				v := b
+				v.Ref.Pub = e.U
+				out := impostorCase(c, r, v, "degenerate-identity-key", nil, i+bi, r.Sub("impd", bi, i))
+				r.Distinct("nontrivial", fmt.Sprintf("%d/impd/%s", bi, e.Label))
+				r.Count("impostor_degenerate-identity-key", 1)
+				expectFail(c, r, "impostor/degenerate-identity-key", out, map[string]any{"bridge": bi, "identity_key": fmt.Sprintf("%x (%s)", e.U, e.Label), "dial_err": fmt.Sprint(out.dialErr)})
 			}
 		})
 		r.Bubble(fmt.Sprintf("misconfig/b%02d", bi), func(c *mon.Case) {
